@@ -419,6 +419,23 @@ func TestC01(t *testing.T) {
 	if ev.Thorough() {
 		lunarNext.Exhaustive("every civil day 1..9998 x step sizes {1, 29} (and seven more sizes on every third day)")
 	}
+	// the first and the last civil day of every lunar month of every year (a month start far from its mean position is a
+	// single day in ten thousand years)
+	for y := 1; y <= 9997; y++ {
+		if !ev.Mine(y) {
+			continue
+		}
+		for e := calendar.NewLunarYear(y).GetMonthsInYear().Front(); e != nil; e = e.Next() {
+			m := e.Value.(*calendar.LunarMonth)
+			j0 := int(m.GetFirstJulianDay() + 0.5)
+			for _, j := range []int{j0, j0 + m.GetDayCount() - 1} {
+				if j > ref.JDNMin+1 && j < ref.JDNMax-1 {
+					yy, mm, dd := ref.FromJDN(j)
+					civilLunarCivil.Eval(dayCase{ref.DT{Y: yy, M: mm, D: dd, H: 12}})
+				}
+			}
+		}
+	}
 	// a dense window of days asked again in scrambled order (same oracle, different predecessor: a memo keyed on too
 	// little answers the previous question)
 	{
